@@ -59,6 +59,8 @@ def tracer_obs(tr, group):
     out = [len(sols)]
     for s in sols:
         out += [float(s.path_length), float(s.tof)] + [float(x) for x in s.emitted_direction] + [float(x) for x in s.received_direction]
+        out += [float(getattr(s, 'dz', 0.0))] + [float(x) for x in np.atleast_1d(s.attenuation(np.array([3e8])))]
+        out += [float(len(s.coordinates[2]))]
     return out
 
 
